@@ -20,10 +20,10 @@ PROPS = {
     "C19": dict(sub="api", trace_spec="PCConfigTrace", prefix=["C19_"], start='"kind":',
                 rule="request sequences (45 per history) over all REST routes against a live runner with scripted commanders; path parameters from "
                      "{valid names, unknown, %2F, %20, very long, unicode, ..} and {-1,0,1,2,3,2^31,2^63,x,1.5,blank,1e3}; bodies valid / truncated / wrong types / empty; "
-                     "the same operations through the bundled client; /live probed after every request",
+                     "the same operations through the bundled client; /live probed after every request; non-following log streams over the websocket route through the bundled LogClient",
                 assumptions=["a recording decorator around the real runner logs the direct call the handler makes: three views of one operation per record",
                              "JSON bodies are compared after removing volatile fields (age, system_time, mem, cpu, uptime, start time, OriginalConfig)",
-                             "PcClient.GetProcessLog (panic: implement me) and the websocket log stream are not exercised here"]),
+                             "PcClient.GetProcessLog (panic: implement me) is not exercised; the websocket log stream is exercised through the bundled LogClient for non-following streams only (single-process streams are compared with the direct call; a two-process stream serves as a stimulus)"]),
     "C11": dict(sub="output", trace_spec="PCConfigTrace", prefix=["C11_"], start='"kind":', model=("PCOutput", "PCOutput_mc.cfg"),
                 rule="real bash commands through the real pipeline: line counts {0,1,2,10,random,bursts of 200/2000/20000 right before exit} x "
                      "stream mixes x very long lines (64 KiB+) x final line without newline x 1-3 attempts x logger none/per-process/flush_each_line/no_metadata/project file x log_length",
